@@ -26,6 +26,7 @@ pub fn nav(args: &[String]) {
   let (s, e): (usize, usize) = (args[2].parse().unwrap(), args[3].parse().unwrap());
   let sg = lang.ast_grep(&src);
   for n in sg.root().dfs().filter(|n| n.range().start == s && n.range().end == e) {
+    if args.len() > 4 && n.kind() != args[4] { continue; }
     println!("node {}..{} {} id={}", s, e, n.kind(), n.node_id());
     if let Some(p) = n.parent() {
       println!(" parent {}..{} {} children:", p.range().start, p.range().end, p.kind());
@@ -38,7 +39,7 @@ pub fn nav(args: &[String]) {
     }
     println!(" prev chain: {:?}", { let mut v = vec![]; let mut c = n.prev(); while let Some(x) = c { v.push((x.range().start, x.range().end, x.kind().to_string(), x.node_id())); c = x.prev(); } v });
     println!(" prev_all:   {:?}", n.prev_all().map(|x| (x.range().start, x.range().end, x.kind().to_string(), x.node_id())).collect::<Vec<_>>());
-    println!(" next chain: {:?}", { let mut v = vec![]; let mut c = n.next(); while let Some(x) = c { v.push((x.range().start, x.range().end)); c = x.next(); } v });
-    println!(" next_all:   {:?}", n.next_all().map(|x| (x.range().start, x.range().end)).collect::<Vec<_>>());
+    println!(" next chain: {:?}", { let mut v = vec![]; let mut c = n.next(); while let Some(x) = c { v.push((x.range().start, x.range().end, x.kind().to_string())); c = x.next(); } v });
+    println!(" next_all:   {:?}", n.next_all().map(|x| (x.range().start, x.range().end, x.kind().to_string())).collect::<Vec<_>>());
   }
 }
